@@ -1641,7 +1641,7 @@ theorem parse_assemble (S : Schema) (sks : List String) (bs : Bytes) (t : Table)
     rw [hk]
     exact typedColumnsFrom_spec (complete bs) _ hwf sks 0 cs (by rw [htx]; exact hspec)
   unfold parseDelimited
-  simp only [ht, hcols, hlen]
+  simp only [ht, pickRows_none, hcols, hlen]
 
 /-- the CR rule leaves a table alone when the first line does not end in CR -/
 theorem crAdjust_lf (data : Bytes) (d : Nat) (hd13 : d ≠ 13) (rows : List (List (Nat × Nat))) (lines : List Bytes)
